@@ -48,6 +48,8 @@ class Recorder:
         self.strategy_inputs = []
         self.reduce_spans = []
         self.simp_origin = {}
+        self.cur_task = {}
+        self.last_task_main = None
         self.ntests = None
         self.last_obs_key = None
         self.n_points_in_rewrite = 0
